@@ -155,6 +155,7 @@ func taskArgs(c *cli.Context) []string {
 	for k, arg := range c.Args().Slice() {
 		if arg == "--" {
 			dash = k
+			break
 		}
 	}
 
